@@ -181,22 +181,38 @@ def r1_r4_copy_map(ctx):
             ctx.finding(f, loop, 'the fill loop iterates %s, which is not '
                         'the list the new columns are built from' % it,
                         key='fill-loop-source')
-        # only skip condition: membership in deleted_columns
-        conds = [n for n in ast.walk(loop) if isinstance(n, ast.If)]
-        cond_ok = len(conds) == 1 and isinstance(conds[0].test, ast.Compare) \
-            and isinstance(conds[0].test.ops[0], ast.NotIn) and \
-            unparse(conds[0].test.comparators[0]) == 'deleted_columns' and \
-            not conds[0].orelse
-        brk = [n for n in ast.walk(loop)
-               if isinstance(n, (ast.Continue, ast.Break, ast.Return))]
-        if cond_ok and not brk:
+        # only skip condition: membership in the deleted-columns set; decided
+        # on the CFG so that "if x not in deleted: copy" and
+        # "if x in deleted: continue" are the same thing
+        snode = next((n for n in g.nodes if n.ast is store), None)
+        head = next((h for h in g.nodes if h.kind == 'for' and
+                     h.ast is loop), None)
+        guards = []
+        if snode is not None and head is not None:
+            body = set()
+            for s_, l in head.succ:
+                if l == 'T':
+                    body |= g.reachable([s_], avoid=[head], follow_exc=False)
+            for t in g.nodes:
+                if t.kind == 'test' and t.id in body:
+                    for lab in ('T', 'F'):
+                        if g.guarded_by(snode, t, lab):
+                            guards.append((t, lab))
+        ok_guards = [(t, lab) for t, lab in guards
+                     if isinstance(t.ast, ast.Compare) and
+                     len(t.ast.ops) == 1 and
+                     unparse(t.ast.comparators[0]) == 'deleted_columns' and
+                     ((isinstance(t.ast.ops[0], ast.NotIn) and lab == 'T') or
+                      (isinstance(t.ast.ops[0], ast.In) and lab == 'F'))]
+        if guards and len(guards) == len(ok_guards) == 1:
             ctx.ok(f, 'the only filter on copied columns is "not in '
-                   'deleted_columns"', conds[0])
+                   'deleted_columns"', guards[0][0].ast)
         else:
-            ctx.finding(f, conds[0] if conds else loop, 'columns are '
-                        'filtered by something other than membership in '
-                        'deleted_columns: a surviving column may not be '
-                        'copied', key='fill-filter')
+            ctx.finding(f, guards[0][0].ast if guards else loop, 'columns '
+                        'are filtered by something other than membership in '
+                        'deleted_columns (%s): a surviving column may not be '
+                        'copied' % [unparse(t.ast) for t, _ in guards],
+                        key='fill-filter')
         # key follows the rename, value is the old column
         rd = ReachingDefs(g, f.params)
         key = store.targets[0].slice
@@ -345,8 +361,9 @@ def r4b_update_params(ctx):
     for mod, q in (('db.common', 'BaseEvolutionOperations.add_column'),
                    ('db.common',
                     'BaseEvolutionOperations.change_column_attr_null')):
-        f = p.func(mod, q)
-        for t in walk_no_nested(f.node):
+        f0 = p.func(mod, q)
+        from ..util import unit_walk
+        for f, t in unit_walk(ctx, f0):
             if isinstance(t, ast.Tuple) and len(t.elts) == 2 and \
                     isinstance(t.elts[1], ast.Tuple) and \
                     isinstance(t.elts[0], ast.Name):
@@ -381,8 +398,10 @@ def r5_copy_before_drop(ctx):
     f = p.func(S, Q)
     g = ctx.cfg(f)
 
+    from ..util import nodes_emitting
+
     def nodes_where(pred):
-        return [n for n in g.nodes if any(pred(a) for a in n.walk())]
+        return nodes_emitting(ctx, f, g, pred)
 
     def starts(prefix):
         return lambda a: (const_str(a) or '').lstrip().upper().startswith(
